@@ -85,6 +85,18 @@ var a, Set2 = pair()
 var SetOK = wire.NewSet(NewInt)
 
 var SetS = wire.NewSet(NewS)
+
+type Holder struct {
+	C  C
+	PS *S
+	I  I
+}
+
+func NewHolder() Holder { return Holder{} }
+
+func NewPHolder() *Holder { return &Holder{} }
+
+type I2 interface{ M() }
 `
 
 // c20Conf is a helper package that does not depend on Wire.
@@ -283,6 +295,19 @@ var c20Injectors = []string{
 	"func Inject() I { panic(wire.Build(wire.InterfaceValue(new(I), Pair[int, string]{Key: 1}))) }",
 	"func Inject() *G[int] { wire.Build(wire.Struct(new(G[int]), \"*\"), NewInt); return nil }",
 	"func Inject() (unsafe.Pointer, error) { panic(wire.Build(NewUP)) }\n\nfunc NewUP() (unsafe.Pointer, error) { return nil, nil }",
+	"func Inject() I { panic(wire.Build(NewHolder, wire.FieldsOf(new(Holder), \"C\"), wire.Bind(new(I), new(C)))) }",
+	"func Inject() I { panic(wire.Build(NewPHolder, wire.FieldsOf(new(*Holder), \"PS\"), wire.Bind(new(I), new(*S)))) }",
+	"func Inject() I { panic(wire.Build(NewPHolder, wire.FieldsOf(new(*Holder), \"C\"), wire.Bind(new(I), new(*C)))) }",
+	"func Inject() I2 { panic(wire.Build(NewHolder, wire.FieldsOf(new(Holder), \"I\"), wire.Bind(new(I2), new(I)))) }",
+	"var FSet = wire.NewSet(NewHolder, wire.FieldsOf(new(Holder), \"C\"), wire.Bind(new(I), new(C)))\n\nfunc Inject() I { panic(wire.Build(FSet)) }",
+	"func Inject() I { panic(wire.Build(wire.Value(C{}), wire.Bind(new(I), new(C)))) }",
+	"func Inject() I2 { panic(wire.Build(wire.InterfaceValue(new(I), C{}), wire.Bind(new(I2), new(I)))) }",
+	"func Inject(c C) I { panic(wire.Build(wire.Bind(new(I), new(C)))) }",
+	"func Inject(h Holder) I { panic(wire.Build(wire.FieldsOf(new(Holder), \"C\"), wire.Bind(new(I), new(C)))) }",
+	"func Inject() I2 { panic(wire.Build(NewC, wire.Bind(new(I), new(C)), wire.Bind(new(I2), new(I)))) }",
+	"func Inject() I { panic(wire.Build(wire.Struct(new(S), \"*\"), NewInt, NewStr, wire.Bind(new(I), new(*S)))) }",
+	"func Inject() I { panic(wire.Build(wire.Struct(new(Holder), \"C\"), NewC, wire.FieldsOf(new(Holder), \"PS\"), wire.Bind(new(I), new(*S)))) }",
+	"func Inject() (I, func(), error) { panic(wire.Build(NewHolder, wire.FieldsOf(new(Holder), \"C\"), wire.Bind(new(I), new(C)))) }",
 }
 
 // C20Case is one form program.
@@ -624,7 +649,7 @@ func init() {
 	all := c20All()
 	Register(&Property{
 		ID: "C20", Level: "exploration",
-		Rule: fmt.Sprintf("catalogue of %d form programs: every marker function (Build/NewSet item position, Struct, FieldsOf, Bind, Value, InterfaceValue) x argument position x spelling (identifiers of every object kind, nil/true/constants, literals, address-of, conversions, anonymous and generic types incl. multi-parameter instantiations, instantiated generic functions, function literals, method values/expressions, non-literal / raw / constant / spread field names, multi-value var specs, zero-valued marker structs, parenthesised calls) x context (direct in Build, alone in Build, set variable, doubly nested inline set, set variable no injector uses, plain variable) x import style (plain, dot, renamed), plus %d result types x {error, cleanup} x import style with a provider that can fail before the result is built, plus %d injector template shapes; forms that do not type-check are out of domain and counted. Both `wire gen` and `wire check` run on every case. Oracle: terminates, status 0 or 1, no Go panic, a non-zero status comes with a diagnostic carrying file:line:col inside the rendered module, status 0 => the package compiles. quick: rapid-sampled by category; thorough: the whole catalogue (exhaustive over the catalogue). Non-trivial = every type-correct case (all are outside the plain documented spelling or stress a result kind); distinct by case hash.", len(all), len(c20Results), len(c20Injectors)),
+		Rule:        fmt.Sprintf("catalogue of %d form programs: every marker function (Build/NewSet item position, Struct, FieldsOf, Bind, Value, InterfaceValue) x argument position x spelling (identifiers of every object kind, nil/true/constants, literals, address-of, conversions, anonymous and generic types incl. multi-parameter instantiations, instantiated generic functions, function literals, method values/expressions, non-literal / raw / constant / spread field names, multi-value var specs, zero-valued marker structs, parenthesised calls) x context (direct in Build, alone in Build, set variable, doubly nested inline set, set variable no injector uses, plain variable) x import style (plain, dot, renamed), plus %d result types x {error, cleanup} x import style with a provider that can fail before the result is built, plus %d injector template shapes; forms that do not type-check are out of domain and counted. Both `wire gen` and `wire check` run on every case. Oracle: terminates, status 0 or 1, no Go panic, a non-zero status comes with a diagnostic carrying file:line:col inside the rendered module, status 0 => the package compiles. quick: rapid-sampled by category; thorough: the whole catalogue (exhaustive over the catalogue). Non-trivial = every type-correct case (all are outside the plain documented spelling or stress a result kind); distinct by case hash.", len(all), len(c20Results), len(c20Injectors)),
 		Assumptions: []string{"the catalogue is hand-written; forms outside it are not explored", "known finding D15 (invalid-injector diagnostic without position, pinned by golden file InvalidInjector) is recognised by its message and cause"},
 		Shards: func(tier string) int {
 			if tier == "thorough" {
